@@ -252,6 +252,107 @@ def run_concurrent_saves(case, ctx, mon):
     mon.nontrivial(True)
 
 
+def run_many_cycles(case, ctx, mon):
+    """One sketch object lineage through 150 save -> load generations with a small change in between (long-lived checkpointed
+    state): the loaded sketch must equal the saved one every time, in lock-step with an ordinary sketch that is never saved."""
+    cfg = case["cfg"]
+    kind = cfg["kind"]
+    rng = np.random.default_rng(case["seed"])
+    live = state.make(cfg)
+    keys = key_family(rng, 6, 0, 8)
+    universe = list(keys)
+    is_log = kind in ("log16", "log8")
+    for g in range(case["cycles"]):
+        op = ops.gen_op(rng, keys, max_value=40 if is_log else None, big=0.02, failing=False)
+        mon.api(ops.apply_op, live, op)
+        snap = state.snapshot(live, kind)
+        loaded = mon.api(state.save_load, live, kind, bool(g % 7 == 3), bool(g % 2))
+        d = state.snap_diff(snap, state.snapshot(loaded, kind), params=True)
+        mon.check(not d, "loaded-state==saved-state", generation=g, differs_in=d, cfg=cfg, how="one lineage through many save/load generations")
+        if kind in state.CMS_KINDS:
+            for k in universe:
+                if loaded.query(k) != live.query(k):
+                    mon.check(False, "loaded-query==saved-query", generation=g, key=hx(k), cfg=cfg)
+        del live
+        live = loaded
+    mon.count("save_load_generations_in_one_lineage", case["cycles"])
+    mon.seen("many_cycles_kind", kind)
+    mon.nontrivial(True)
+
+
+def run_odd_states(case, ctx, mon):
+    """States and parameters a user can legitimately reach but random histories do not: bookkeeping counters set to 0 under a
+    filled table (n_added_records is a documented attribute), a table assigned on a fresh sketch, fractional float parameters
+    (the constructors accept and truncate them), and a save through a symbolic link followed by a load of the real path."""
+    import shutil
+    import tempfile
+
+    kind = case["kind"]
+    rng = np.random.default_rng(case["seed"])
+    cfg = dict(case["cfg"])
+    loader = {"hh": sk().HeavyHitters.load, "hll": sk().HyperLogLog.load}.get(kind, sk().countmin.load)
+    keys = key_family(rng, 5, 1, 8)
+    # (a) filled table, bookkeeping zeroed
+    if kind != "hll":
+        s_ = state.make(cfg)
+        for k in keys:
+            s_.add(k, int(rng.integers(1, 9)))
+        s_.n_added_records[:] = 0
+        snap = state.snapshot(s_, kind)
+        for shm in (False, True):
+            got = mon.api(state.save_load, s_, kind, shm, False)
+            d = state.snap_diff(snap, state.snapshot(got, kind))
+            mon.check(not d, "loaded-state==saved-state", differs_in=d, cfg=cfg, how="n_added_records set to 0 under a filled table", shm=shm)
+            del got
+        mon.count("odd_states:zeroed_bookkeeping")
+    # (b) fractional float parameters
+    if kind in ("log16", "log8"):
+        fcfg = dict(cfg, max_count=0.05 * 41234567.0, num_reserved=255 / 8 if kind == "log8" else 4000 / 3)
+        try:
+            f_ = state.make(fcfg)
+        except Exception:  # noqa: BLE001  (a tree that refuses fractional parameters is fine)
+            f_ = None
+        if f_ is not None:
+            for k in keys:
+                f_.add(k, 2)
+            got = mon.api(state.save_load, f_, kind, False, True)
+            d = state.snap_diff(state.snapshot(f_, kind), state.snapshot(got, kind), params=True)
+            mon.check(not d, "loaded-state==saved-state", differs_in=d, cfg={k: str(v) for k, v in fcfg.items()}, how="fractional float parameters")
+            for x, y, name in ((got, f_, "loaded<-original"), (f_, got, "original<-loaded")):
+                try:
+                    x.merge(y)
+                    raised = None
+                except Exception as exc:  # noqa: BLE001
+                    raised = f"{type(exc).__name__}: {exc}"
+                mon.check(raised is None, "loaded-sketch-merges-with-the-original", raised=raised, direction=name, how="fractional float parameters")
+            mon.count("odd_states:float_parameters")
+    # (c) save through a symbolic link, load the real path
+    d_ = tempfile.mkdtemp(prefix="vmon-link-", dir=os.environ.get("VERIF_TMP") or None)
+    try:
+        os.mkdir(os.path.join(d_, "store"))
+        real = os.path.join(d_, "store", "sketch-v1.npz")
+        link = os.path.join(d_, "current.npz")
+        s1 = state.make(cfg)
+        s1.add(keys[0], 5)
+        s1.save(real)
+        os.symlink(real, link)
+        for k in keys:
+            s1.add(k, 3)
+        snap = state.snapshot(s1, kind)
+        mon.api(s1.save, link)
+        for path, name in ((real, "real path"), (link, "link")):
+            got = mon.api(loader, path)
+            dd = state.snap_diff(snap, state.snapshot(got, kind))
+            mon.check(not dd, "loaded-state==saved-state", differs_in=dd, cfg=cfg, how=f"saved through a symbolic link, loaded through the {name}")
+        stray = [f for f in os.listdir(d_) if f not in ("store", "current.npz")] + [f for f in os.listdir(os.path.join(d_, "store")) if f != "sketch-v1.npz"]
+        mon.check(not stray, "no-stray-file-left-in-the-directory", stray=stray[:5])
+        mon.count("odd_states:symlink_saves")
+    finally:
+        shutil.rmtree(d_, ignore_errors=True)
+    mon.seen("odd_states_kind", kind)
+    mon.nontrivial(True)
+
+
 def run_rowpair(case, ctx, mon):
     """A table in which one row holds a larger counter than row 0 (two keys that share a counter only in that row, counted in
     different sketches, then merged) must survive save/load bit for bit, for every loader."""
@@ -325,6 +426,12 @@ def gen_cases(ctx):
     for kind in state.ALL_KINDS:
         cfg = {"kind": kind, "width": 64, "depth": 3, "max_key_len": 6, "p": 9, "seed": 3}
         yield {"type": "concurrent_saves", "kind": kind, "cfg": cfg, "threads": 4, "rounds": 6 if ctx.quick else 20}
+    for kind in state.ALL_KINDS:
+        cfg = {"kind": kind, "width": 7, "depth": 3, "max_key_len": 6, "p": 8, "seed": 5}
+        yield {"type": "many_cycles", "cfg": cfg, "cycles": 150 if ctx.quick else 600, "seed": int(rng.integers(0, 2**31))}
+    for kind in state.ALL_KINDS:
+        cfg = {"kind": kind, "width": 9, "depth": 3, "max_key_len": 6, "p": 8, "seed": 5}
+        yield {"type": "odd_states", "kind": kind, "cfg": cfg, "seed": int(rng.integers(0, 2**31))}
     # scripted corner: heavy hitters of width 1 (phi defaults to exactly 1.0) must reload
     yield {"type": "roundtrip", "cfg": {"kind": "hh", "width": 1, "depth": 2, "max_key_len": 4}, "history": [["add", "6161", 5], ["add", "62", 2]],
            "n_records": 3, "generations": [{"shm": False, "via_module": False, "cont": [["add", "6161", 1]]},
@@ -345,6 +452,10 @@ def run_case(case, ctx, mon):
         run_dispatch(case, ctx, mon)
     elif case["type"] == "concurrent_saves":
         run_concurrent_saves(case, ctx, mon)
+    elif case["type"] == "many_cycles":
+        run_many_cycles(case, ctx, mon)
+    elif case["type"] == "odd_states":
+        run_odd_states(case, ctx, mon)
     else:
         run_roundtrip(case, ctx, mon)
 
@@ -366,5 +477,7 @@ def floors(mon, ctx):
             mon.floor(f"loads of {kind} with shared_memory {shm}", mon.counters[f"loads:{kind}:shm={shm}"], 5)
         mon.floor(f"chains of depth >= 3 for {kind}", mon.counters[f"chains_depth3:{kind}"], 1)
     mon.floor("loads through module-level load()", mon.counters["loads_via_module_load"], 10)
+    mon.floor("kinds taken through 150+ save/load generations in one lineage", len(mon.classes["many_cycles_kind"]), 5)
+    mon.floor("kinds with odd-state round trips (zeroed bookkeeping, float parameters, symbolic links)", len(mon.classes["odd_states_kind"]), 5)
     mon.floor("kinds saved concurrently by several threads", len(mon.classes["concurrent_save_kind"]), 5)
     mon.floor("dispatch probes", mon.counters["dispatch_probes"], 9)
